@@ -3,9 +3,18 @@ Spec: spec/SQLTables.tla (PKUnique, UniqueIdx: keys compared under the column co
 length, NULLs exempt; which statements must fail / skip / replace / update on a collision).
 Projection: ok / duplicate-failure of every statement (error class, never the message) and the key
 invariants PKUniqueT / UniqueIdxT evaluated by TLC on the LOGGED tables after every statement.
+For INSERT IGNORE / REPLACE / ON DUPLICATE KEY UPDATE on a keyed table the table contents are part of
+the projection too (a row skipped / replaced / updated without a key collision, or not although there
+is one), unless a key invariant already reports the statement.
 Histories are key-collision heavy: composite keys, case variants under _ai_ci and _bin, prefix
 keys, NULLs in unique columns, multi-row statements colliding inside the statement, key-swapping
-updates, REPLACE / ON DUPLICATE KEY UPDATE hitting several keys."""
+updates, REPLACE / ON DUPLICATE KEY UPDATE hitting several keys.  Prefix keys: 45 % of the tables
+carry UNIQUE KEY (c(n)), n = 2..4 (alone or behind an INT column), whose column is fed from a family
+of strings around n: proper prefixes shorter than n, the string of length n, longer strings that
+differ only behind position n, strings that differ inside the prefix, '' (dmlgen.prefixPool), by
+INSERT / INSERT IGNORE / REPLACE / ON DUPLICATE KEY UPDATE / UPDATE alike.  The bounded models
+MC_Tables "prefix" (UNIQUE (c2(2))) and "prefixpk" (PRIMARY KEY (c1(2)), model only: the engine
+refuses a prefix length in a PRIMARY KEY) check the key invariants of the specification itself."""
 import dmlcommon as dc
 
 PID = "C14"
@@ -14,22 +23,26 @@ META = {
     "level": "model_checking",
     "technique": "TLA+ table/statement spec SQLTables.tla: invariants PKUnique/UniqueIdx model-checked on bounded exhaustive models; TLC evaluates the same invariants on the tables logged from the real engine after every statement and decides for every statement whether ok / duplicate-key failure is an allowed outcome",
     "text": "No logged table state contains two rows with equal primary-key values or equal non-NULL values in a unique index (compared under the columns' collations and prefix lengths); a statement fails as a duplicate (or skips / replaces / updates under IGNORE / REPLACE / ON DUPLICATE KEY UPDATE) exactly when the specification says a key collision occurs.",
-    "note": "Error texts are not compared. UPDATE without ORDER BY may legitimately fail on a transient collision: both outcomes are allowed there.",
+    "note": "Error texts are not compared. UPDATE without ORDER BY may legitimately fail on a transient collision: both outcomes are allowed there. Prefix lengths are exercised on unique keys only: the engine refuses PRIMARY KEY (c(n)) ('prefix index on string column unsupported'), so that vocabulary of the specification (pkplen) is model-checked but not bound to the engine.",
 }
 
-RULE = ("seeded random schemas (composite / single / no primary key over INT and VARCHAR under _bin and _ai_ci; unique keys incl. multi-column and prefix) "
-        "x key-collision-heavy histories of 10-40 statements; ok/dup-failure and the key invariants on the logged tables decided by TLC.")
+RULE = ("seeded random schemas (composite / single / no primary key over INT and VARCHAR under _bin and _ai_ci; unique keys incl. multi-column and "
+        "prefix keys (c(n)), n = 1..4, fed with values shorter than / as long as / longer than n that share prefixes) "
+        "x key-collision-heavy histories of 10-40 statements; ok/dup-failure, the skip/replace/update effect of IGNORE / REPLACE / ODKU and the key invariants on the logged tables decided by TLC.")
 
 
 def count(evs):
     n = sum(1 for e in evs if e["ev"] == "stmt" and ("uniq" in e.get("tags", []) or "pkN" in e.get("tags", []) or "pk1" in e.get("tags", [])))
-    return {"statements_on_keyed_tables": n}
+    pre = [e for e in evs if e["ev"] == "stmt" and "prefix" in e.get("tags", [])]
+    return {"statements_on_keyed_tables": n, "statements_on_prefix_key_tables": len(pre),
+            "changed_on_prefix_key_tables": sum(1 for e in pre if e["reply"]["kind"] == "ok" and e["reply"]["affected"] > 0),
+            "dup_on_prefix_key_tables": sum(1 for e in pre if e["reply"].get("class") == "dup")}
 
 
 def check(tier):
     return dc.check(PID, tier, "c14", ["MC_Tables_keys_q.cfg", "MC_Tables_prefix_q.cfg"],
                     ["MC_Tables_keys_t.cfg", "MC_Tables_both_t.cfg", "MC_Tables_prefix_t.cfg", "MC_Tables_prefixpk_t.cfg"], "MC_Tables_keys_dump.cfg",
-                    floors={"statements": 300, "changed": 100, "err:dup": 40, "ok:": 150}, rule=RULE, count=count)
+                    floors={"statements": 300, "changed": 100, "err:dup": 40, "ok:": 150, "statements_on_prefix_key_tables": 100, "dup_on_prefix_key_tables": 15}, rule=RULE, count=count)
 
 
 def replay(path):
